@@ -7,6 +7,7 @@ def confirm(check, r):
     if not mv: return False
     shape = r['shape']
     case = base_case(shape, mv, 'timeline_eval'); case['strict'] = False
+    if len(shape) > 5 and shape[5] == 2: case['via_from'] = True
     nat = run_replay([case], 'dev', 'replay_tl')[0]
     if nat.get('mismatch') and ('modified' in nat.get('detail', '') or 'untouched' in nat.get('detail', '')):
         check.report_violation(f'{shape[0]}_N{shape[1]}', None, f'shape {shape}: {nat["detail"]}', case); return True
